@@ -107,6 +107,31 @@ def _replay_blocks(blocks):
     return n, nontriv, drift[:5], viol[:5], samples
 
 
+def _replay_rev(blocks):
+    """Reversal-only signals over -3..3: the FKM detector against the HCM rule of the specification, the 3/4-point detectors against the definition."""
+    n, nontriv, viol = 0, [], []
+    for b in blocks:
+        st = parse_state(b.strip())
+        fed = st['fed']
+        if len(fed) < 5:
+            continue
+        n += 1
+        gF, _ = c01._code_obs('F', fed, (len(fed),))
+        case = {'signal': fed}
+        if 'raised' in gF:
+            viol.append(('detector F raised %s' % gF['raised'], case, None, gF))
+        elif gF['cyc'] != tuple(tuple(c) for c in st['oF']['cyc']) or gF['rv'] != tuple(st['oF']['rv']):
+            viol.append(('FKM detector differs from the Clormann-Seeger HCM rule on the interior reversals', case, {'cyc': st['oF']['cyc'], 'rv': st['oF']['rv']}, gF))
+        if n % 5 == 0:
+            g4, _ = c01._code_obs('4', fed, (len(fed),))
+            dcyc = tuple(tuple(c) for c in st['def4']['cyc'])
+            if 'raised' in g4 or g4['cyc'] != dcyc or g4['rv'] != tuple(r[0] for r in st['def4']['res']):
+                viol.append(('four-point detector differs from the textbook four-point rule', case, {'cyc': dcyc}, g4))
+        if len(st['oF']['cyc']) >= 2:
+            nontriv.append(fed)
+    return n, nontriv, viol[:5]
+
+
 def run(chk):
     quick = chk.tier == 'quick'
     cfg = os.path.join(SPEC, 'rainflow', 'MC_OnePiece_quick.cfg' if quick else 'MC_OnePiece_thorough.cfg')
@@ -129,6 +154,24 @@ def run(chk):
         chk.cov['traces_validated_against_impl'] += total
         chk.evals(total * 3)
         chk.part('replay', states_replayed=total, detectors=3)
+        os.remove(res.dump_path)
+    # reversal-only signals: longer sequences over a larger alphabet (-3..3) at the same cost
+    cfg = os.path.join(SPEC, 'rainflow', 'MC_OnePiece_rev_quick.cfg' if quick else 'MC_OnePiece_rev_thorough.cfg')
+    res = tlc.run(TLA, cfg, dump=True, timeout=3000, heap='12g')
+    chk.tlc(os.path.basename(cfg), res, 'all strictly alternating signals over -3..3, one piece: the same invariants on reversal sequences of up to %d samples' % (8 if quick else 9))
+    if res.violated:
+        chk.machinery.append('model invariant %s violated at %s' % (res.violated, res.trace[-1:]))
+    if res.dump_path and os.path.exists(res.dump_path):
+        total = 0
+        for n, nontriv, viol in par.pmap(_replay_rev, par.split_dump(res.dump_path, 64), chunksize=1):
+            total += n
+            for k in nontriv:
+                chk.nontrivial(k)
+            for what, case, exp, got in viol:
+                chk.violation(what, case, exp, got, part='replay_reversals')
+        chk.cov['traces_validated_against_impl'] += total
+        chk.evals(total)
+        chk.part('replay_reversals', states_replayed=total)
         os.remove(res.dump_path)
     # the chunked model also carries the C02 invariants in every chunked state (quick instance of C01)
     # (C) recorded one-piece executions of long integer signals, TLC evaluates the definition on the logged signal
